@@ -32,6 +32,14 @@ def RulesInnermost (sites : List (String × String × String × String × List (
 
 theorem rules_lock_is_innermost : RulesInnermost Gen.lockSites = true := by decide
 
+/-- a connection's guard is never held while that task waits for a connection's lock again (directly, or through the
+    `ContextRefOps` methods `on_error` / `on_connect` / `on_finish` / `enqueue`, which take the lock themselves): tokio's
+    RwLock is not re-entrant, the task would wait for itself -/
+def CtxNotAcrossCtx (sites : List (String × String × String × String × List (String × Gen.AwaitClass))) : Bool :=
+  sites.all (fun s => s.2.2.1 != "ctx" || s.2.2.2.2.all (fun a => a.2 != Gen.AwaitClass.ctxlock))
+
+theorem connection_lock_not_reentered : CtxNotAcrossCtx Gen.lockSites = true := by decide
+
 /-- the two registry locks nest in one order only: the history list `terminated` first, then `alive` (the collector's
     order) — nowhere is `alive` held while `terminated` is awaited -/
 def RegistryOrder (sites : List (String × String × String × String × List (String × Gen.AwaitClass))) : Bool :=
